@@ -188,6 +188,10 @@ class Emitter:
                 handles = sorted(self.event.tags.keys())
                 for handle in handles:
                     prefix = self.event.tags[handle]
+                    # A redefined handle no longer stands for its default prefix.
+                    for default in [p for p, h in self.tag_prefixes.items()
+                            if h == handle]:
+                        del self.tag_prefixes[default]
                     self.tag_prefixes[prefix] = handle
                     handle_text = self.prepare_tag_handle(handle)
                     prefix_text = self.prepare_tag_prefix(prefix)
